@@ -37,6 +37,7 @@ VMETA = "metadata::ValidatedEndpointMetadata"
 PLUMB = [r"ops::Deref::deref$", r"convert::AsRef::as_ref$", r"Option::<T>::as_ref$", r"Option::<T>::as_deref$", r"clone::Clone::clone$", r"borrow::Borrow::borrow$",
          r"String::as_str$", r"slice::<impl \[T\]>::iter$", r"iter::IntoIterator::into_iter$", r"iter::Iterator::collect$", r"RepAsIteratorExt::quote_into_iter$",
          r"RepIteratorExt::quote_into_iter$", r"iter::Iterator::next$", r"convert::Into::into$", r"convert::From::from$"]
+STR_CONV = [r"string::ToString::to_string$", r"borrow::ToOwned::to_owned$"]   # &str -> String (From/Into are in PLUMB)
 FMT = [r"^core::fmt::", r"^std::fmt::", r"fmt::rt::Argument", r"fmt::Arguments", r"^std::hint::must_use$", r"quote::__private::mk_ident$", r"IdentFragmentAdapter", r"Option::<T>::or$"]
 
 
@@ -775,6 +776,8 @@ def _byname(x, roles=None):
             x = x[:4]
             if re.search(r"(Result::<T, E>|Option::<T>)::(expect|unwrap)$", x[1]) and x[2]:
                 x = ("call", "unwrap", x[2][:1], None)  # the panic message is not part of the value
+            elif Q.is_str_to_string(x):
+                x = ("call", "str->String", x[2][:1], None)  # to_string / to_owned / String::from / into: one conversion
         return tuple(_byname(y, roles) for y in x)
     return x
 
@@ -823,7 +826,7 @@ def r4_new_vs_stub(ctx):
             ok = ok and a[0] == "param" and ra == ("param", passthrough[n])
             extra = " (the argument, unmodified)"
         if n == "path":
-            ok = ok and role_leaves == {"path"} and len(Q.leaves(a)) == 1 and not _only(a, PLUMB + [r"ToString::to_string$"])
+            ok = ok and role_leaves == {"path"} and len(Q.leaves(a)) == 1 and not _only(a, PLUMB + STR_CONV)
         if n == "body_content_type":
             ok = ok and role_leaves == {"content_type"} and len(Q.leaves(a)) == 1 and any(re.search(r"from_mime_type$", c) for c in Q.callees(a)) and not _only(a, PLUMB + [r"from_mime_type$", r"Result::<T, E>::(expect|unwrap)$"])
         if n in ("parameters", "extension_mode"):
@@ -1008,6 +1011,36 @@ def r6_document(ctx):
 
 
 # =========================================================================== R7
+def _emptiness_test(q, fr, g, sbb, st):
+    """The switch at sbb tests whether a field is empty — `x.f == T::EMPTY`, `x.f != T::EMPTY`, `x.f.is_empty()`,
+    possibly negated or bound to a flag: (field name, edge taken when empty, edge taken when not empty)."""
+    if g.switch_on(sbb)["kind"] != "bool":
+        return None
+    tb, fb = g.bool_edges(sbb)
+    t = q.ev_op(fr, st["discr"])
+    for _ in range(6):
+        if t[0] == "unop" and t[1] == "Not":
+            t = t[2]
+            tb, fb = fb, tb
+        else:
+            break
+    fields = lambda x: [y[2] for y in Q.walk(x) if y[0] == "field"]
+    if t[0] == "call" and re.search(r"::is_empty$", t[1]) and len(t[2]) == 1:
+        fs = fields(t[2][0])
+        return (fs[0], tb, fb) if fs else None
+    ab = None
+    if t[0] == "binop" and t[1] in ("Eq", "Ne"):
+        ab, ne = (t[2], t[3]), t[1] == "Ne"
+    elif t[0] == "call" and re.search(r"cmp::PartialEq::(eq|ne)$", t[1]) and len(t[2]) == 2:
+        ab, ne = (t[2][0], t[2][1]), t[1].endswith("ne")
+    if ab is None:
+        return None
+    for x, y in (ab, ab[::-1]):
+        if any(z[0] == "const" and z[1].endswith("EMPTY") for z in Q.walk(x)) and fields(y):
+            return (fields(y)[0], fb, tb) if ne else (fields(y)[0], tb, fb)
+    return None
+
+
 def r7_versions(ctx):
     R = ctx.rule("C19.R7", "version-range syntax -> range kind: `..`=All, `..b`=Until(b), `a..`=From(a), `a..b`=FromUntil(a,b) with operands in source order; literal pairs are refused iff until < earliest; "
                  "each kind emits the same-named ApiEndpointVersions constructor (from_until(earliest, until).unwrap() for FromUntil) with literals as semver::Version::new(major, minor, patch)", floor=14)
@@ -1135,14 +1168,15 @@ def r7_versions(ctx):
             sx, sy = site_of(tx), site_of(ty)
             lit = all(any(z[0] == "as" and z[2] == "Literal" for z in Q.walk(t)) for t in (tx, ty))
             target = c[edge]
-            reaches = fbb in pf.reachable(target)
+            # variant-sensitive: an `Err(..)` built on this edge (possibly in an inlined helper) takes the error exit of the `?` after it
+            reaches = fbb in (Q.variant_reach(pf, target) or pf.reachable(target))
             if rel == "lt" and (sx, sy) == (s1, s0) and lit:
                 # until < earliest on this edge: must be the refusing edge
                 errs = [b for b, i, s in pf.aggregates(r"^std::result::Result$", "Err") if pf.edge_dominates(c["bb"], target, b)]
                 verdicts.append(((not reaches) and bool(errs), "on the edge where until < earliest: FromUntil reachable=%s, Err built=%s" % (reaches, bool(errs))))
             elif rel == "le" and (sx, sy) == (s0, s1) and lit:
                 other = c["false" if edge == "true" else "true"]
-                v = reaches and fbb not in pf.reachable(other)
+                v = reaches and fbb not in (Q.variant_reach(pf, other) or pf.reachable(other))
                 verdicts.append((v, "FromUntil is reachable only from the edge where earliest <= until: %s" % v))
         if verdicts:
             okc = all(v for v, _ in verdicts)
@@ -1156,22 +1190,17 @@ def r7_versions(ctx):
     region = [ps] + ep.descendants(ps)
     chk = {"pre": False, "build": False}
     for g in region:
+        gfr = Q.Frame(g)
         for sbb, st in g.switches():
-            c = comparison_of(g, sbb)
-            if not c or c["op"] not in ("Eq", "Ne"):
+            et = _emptiness_test(q0, gfr, g, sbb, st)
+            if et is None or et[0] not in chk:
                 continue
-            gfr = Q.Frame(g)
-            a, b = q0.ev_op(gfr, c["a"]), q0.ev_op(gfr, c["b"])
-            for fld in chk:
-                fields_read = [x[2] for x in Q.walk(a) if x[0] == "field"] + [x[2] for x in Q.walk(b) if x[0] == "field"]
-                consts = [x[1] for x in Q.walk(a) if x[0] == "const"] + [x[1] for x in Q.walk(b) if x[0] == "const"]
-                if fld in fields_read and any(cn.endswith("EMPTY") for cn in consts):
-                    eq_edge = c["true"] if c["op"] == "Eq" else c["false"]
-                    ne_edge = c["false"] if c["op"] == "Eq" else c["true"]
-                    oks = [bb for bb, i, s in g.aggregates(r"^std::result::Result$", "Ok") if g.edge_dominates(c["bb"], eq_edge, bb)]
-                    errs = [bb for bb, i, s in g.aggregates(r"^std::result::Result$", "Err") if g.edge_dominates(c["bb"], ne_edge, bb)]
-                    if oks and errs:
-                        chk[fld] = True
+            fld, empty_edge, nonempty_edge = et
+            # accepted only past the `empty` edge, refused on the other (closure of and_then, early return, if/else alike)
+            oks = [bb for bb, i, s in g.aggregates(r"^std::result::Result$", "Ok") if g.edge_dominates(sbb, empty_edge, bb)]
+            errs = [bb for bb, i, s in g.aggregates(r"^std::result::Result$", "Err") if g.edge_dominates(sbb, nonempty_edge, bb)]
+            if oks and errs:
+                chk[fld] = True
     ctx.check(R, "literal:no-prerelease-or-build", all(chk.values()), "parse_semver refuses literals whose pre-release / build metadata is not EMPTY: %s" % chk, ps)
     sv = ctx.need_fn(ep, R, r"^<metadata::VersionSpecifier as syn::parse::Parse>::parse$")
     lits = [bb for bb, i, s in sv.aggregates(r"^metadata::VersionSpecifier$", "Literal")]
@@ -1181,9 +1210,48 @@ def r7_versions(ctx):
 
 
 # =========================================================================== R8
+def _accumulations(ep, q0, f, fr, term, is_stream):
+    """Every accumulation over an iterator inside `term`, whatever the idiom:
+      `it.fold(init, |acc, x| step)`                      -> arms of the closure's result, acc = its 1st, x = its 2nd argument
+      `let mut acc = init; for x in it { acc = step }`    -> the loop-carried local: arms defined in the loop (they mention the
+                                                             local itself) are steps, the others initial values
+    Each: {node, how, stream, inits, arms [(guards, value)], is_acc(term), is_line(term), site}."""
+    out = []
+    for x in Q.walk(term):
+        if x[0] == "call" and re.search(r"iter::Iterator::fold$", x[1]) and len(x[2]) == 3 and x not in [o["node"] for o in out]:
+            cl = x[2][2]
+            arms, g = None, None
+            if cl[0] == "closure" and cl[1] in ep.F:
+                g = ep.F[cl[1]]
+                arms = Q.flat_arms(q0.value(g, 0)[0])
+            out.append({"node": x, "how": "Iterator::fold", "stream": x[2][0], "inits": [x[2][1]], "arms": arms, "site": g or f,
+                        "is_acc": lambda y: y == ("arg", 2), "is_line": lambda y: y == ("arg", 3)})
+    for n in sorted(set(y[1] for y in Q.walk(term) if y[0] == "cycle")):
+        T = q0.ev_local(fr, n)
+        if T[0] != "alt" or T in [o["node"] for o in out]:
+            continue
+        mine = lambda v, n=n: ("cycle", n) in list(Q.walk(v))
+        steps = [(g, v) for g, v in T[1] if mine(v)]
+        inits = [v for g, v in T[1] if not mine(v)]
+        if not steps or not inits:
+            continue
+        # the loop is driven by `next()` of the stream: `for x in it` / `while let Some(x) = it.next()`
+        drv = set()
+        for g, v in steps:
+            d = [Q.strip_plumb(gt[2][0]) for gt, gv in g if gv == "Some" and gt[0] == "call" and re.search(r"iter::Iterator::next$", gt[1]) and gt[2]]
+            drv.add(d[-1] if d else None)
+        stream = list(drv)[0] if len(drv) == 1 else None
+        arms = []
+        for g, v in steps:
+            arms.extend(Q.flat_arms(v, g))
+        out.append({"node": T, "how": "loop-carried local", "stream": stream or ("unknown", "loop not driven by Iterator::next"), "inits": inits, "arms": arms, "site": f,
+                    "is_acc": lambda y, n=n: y == ("cycle", n), "is_line": lambda y: y[0] == "item" and is_stream(y[1])})
+    return out
+
+
 def r8_doc_lines(ctx):
-    R = ctx.rule("C19.R8", "ExtractedDoc::from_attrs draws summary and description from one stream of the item's doc-attribute lines: the summary is a whole line of it, the description folds every "
-                 "remaining line, and no fold step drops the accumulated text or a non-empty line", floor=5)
+    R = ctx.rule("C19.R8", "ExtractedDoc::from_attrs draws summary and description from one stream of the item's doc-attribute lines: the summary is a whole line of it, the description accumulates "
+                 "(fold or loop) every remaining line onto a whole first line, and no accumulation step drops the accumulated text or a non-empty line", floor=5)
     ep = ctx.ep
     q0 = _q(ctx, "ep", inline=False)
     f = ctx.need_fn(ep, R, r"^doc::ExtractedDoc::from_attrs$")
@@ -1203,38 +1271,47 @@ def r8_doc_lines(ctx):
     ctx.check(R, "doc:one-line-stream", len(s1) == 1 and s1 == s2 and Q.leaves(sm) == {"attrs"} and Q.leaves(de) == {"attrs"},
               "summary and description both read the single line stream built from `attrs`: %s" % (len(s1) == 1 and s1 == s2), (f, bb))
     cap_ok = [r"^proc_macro2::Ident::new$", r"^proc_macro2::Span::call_site$"]  # the `doc` identifier captured by the line closure
-    bad = _only(sm, PLUMB + cap_ok + [r"Iterator::flat_map$", r"Iterator::next$"])
+    LINE = PLUMB + cap_ok + [r"Iterator::flat_map$", r"Iterator::next$"]        # a line of the stream, as it is
+    bad = _only(sm, LINE)
     ctx.check(R, "doc:summary-is-a-whole-line", not bad and any(re.search(r"Iterator::next$", c) for c in Q.callees(sm)), "summary = %s%s" % (cap(Q.show(sm)), (" ; unexpected: %s" % bad) if bad else ""), (f, bb))
-    folds = [x for x in Q.walk(de) if x[0] == "call" and re.search(r"Iterator::fold$", x[1])]
-    badd = _only(de, PLUMB + cap_ok + [r"Iterator::flat_map$", r"Iterator::next$", r"Iterator::fold$", r"str::<impl str>::trim_end$", r"ToString::to_string$"])
-    okf = len(folds) == 1 and len(folds[0][2]) == 3 and streams(folds[0][2][0]) == s1 and not badd
-    ctx.check(R, "doc:description-folds-the-remaining-lines", okf, "description = %s%s" % (cap(Q.show(de)), (" ; unexpected: %s" % badd) if badd else ""), (f, bb))
-    if len(folds) == 1 and len(folds[0][2]) == 3 and folds[0][2][2][0] == "closure" and folds[0][2][2][1] in ep.F:
-        g = ep.F[folds[0][2][2][1]]
-        ret, _ = q0.value(g, 0)
-        arms = ret[1] if ret[0] == "alt" else (((), ret),)
+    is_stream = lambda t: len(s1) == 1 and streams(t) == s1 and not _only(t, LINE)
+    accs = _accumulations(ep, q0, f, fr, de, is_stream)
+    okf = len(accs) == 1
+    detail = "accumulations (Iterator::fold / loop-carried text) in the description: %d" % len(accs)
+    if okf:
+        a = accs[0]
+        # around the accumulation only whole-value plumbing (trim of trailing blanks, &str -> String); it starts from a whole line
+        outer = Q.rewrite(de, lambda y: ("lit", '"<accumulated>"') if y == a["node"] else None)
+        badd = _only(outer, LINE + [r"str::<impl str>::trim_end$"] + STR_CONV)
+        init_ok = all(Q.strip_plumb(v)[0] == "item" and is_stream(Q.strip_plumb(v)[1]) for v in a["inits"])
+        okf = is_stream(a["stream"]) and init_ok and not badd
+        detail = "description = %s ; %s over the line stream: %s, starting from a whole line of it: %s%s" % (cap(Q.show(outer)), a["how"], is_stream(a["stream"]), init_ok, (" ; unexpected: %s" % badd) if badd else "")
+    ctx.check(R, "doc:description-folds-the-remaining-lines", okf, detail, (f, bb))
+    if len(accs) == 1 and accs[0]["arms"]:
+        a = accs[0]
         bad_arms = []
-        for gs, v in arms:
-            has_acc = ("arg", 2) in list(Q.walk(v, guards=False))
-            has_line = ("arg", 3) in list(Q.walk(v, guards=False))
-            line_empty = any(gt[0] == "call" and re.search(r"is_empty$", gt[1]) and ("arg", 3) in list(Q.walk(gt)) and gv is True for gt, gv in gs)
+        for gs, v in a["arms"]:
+            inside = list(Q.walk(v, guards=False))
+            has_acc = any(a["is_acc"](y) for y in inside)
+            has_line = any(a["is_line"](y) for y in inside)
+            line_empty = any(gt[0] == "call" and re.search(r"is_empty$", gt[1]) and any(a["is_line"](y) for y in Q.walk(gt)) and gv is True for gt, gv in gs)
             if not has_acc or not (has_line or line_empty):
                 bad_arms.append("%s => %s" % (Q.show_guards(gs), cap(Q.show(v), 90)))
-        ctx.check(R, "doc:fold-keeps-accumulator-and-line", not bad_arms and len(arms) >= 1,
-                  "fold step arms: %d; arms losing text: %s" % (len(arms), bad_arms or "none"), g)
+        ctx.check(R, "doc:fold-keeps-accumulator-and-line", not bad_arms,
+                  "accumulation step (%s) arms: %d; arms losing text: %s" % (a["how"], len(a["arms"]), bad_arms or "none"), a["site"])
     else:
-        ctx.lost(R, "the fold closure of the description")
+        ctx.lost(R, "the accumulation step (fold closure / loop body) of the description")
     # which attributes contribute lines
     fm = [x for x in Q.walk(sm) if x[0] == "call" and re.search(r"Iterator::flat_map$", x[1])]
     okc = False
     detail = "line-producing closure not found"
     if fm and len(fm[0][2]) == 2 and fm[0][2][1][0] == "closure" and fm[0][2][1][1] in ep.F:
-        g = ep.F[fm[0][2][1][1]]
-        ret, _ = q0.value(g, 0)
-        arms = ret[1] if ret[0] == "alt" else ()
+        ret = q0.closure_ret(fr, fm[0][2][1], ("arg", 2))
+        arms = Q.flat_arms(ret) if ret[0] == "alt" else []
         text = [(gs, v) for gs, v in arms if Q.leaves(v)]
+        named = [gt for gs, v in text for gt, gv in gs if gt[0] == "call" and re.search(r"Path::is_ident$", gt[1]) and gv is True]
         okc = len(text) == 1 and any(re.search(r"LitStr::value$", c) for c in Q.callees(text[0][1])) and \
-            any(gt[0] == "call" and re.search(r"Path::is_ident$", gt[1]) and gv is True for gt, gv in text[0][0]) and \
+            len(named) == 1 and Q.lits(named[0]) == {"doc"} and \
             all(v[0] == "call" and re.search(r"Vec::<T>::new$", v[1]) for gs, v in arms if not Q.leaves(v))
         detail = "lines come from the string value of `doc = \"..\"` attributes only: %s" % okc
     ctx.check(R, "doc:only-doc-attributes-contribute", okc, detail, f)
